@@ -195,6 +195,49 @@ fn check_pair(input: &PairIn, case: &mut Case) -> Result<(), Fail> {
     Ok(())
 }
 
+/// two records of one type that agree on all but a few RDATA fields: whenever the library calls the
+/// RDATA values (or the records) equal they must hash equally; and a value always equals itself
+type TwinIn = (ARData, ARData, u16, AName);
+
+fn twin_strategy(_t: Tier) -> BoxedStrategy<TwinIn> {
+    proptest::sample::select(gen::record_codes())
+        .prop_flat_map(|code| (gen::typed_n(code, gen::share_name()), gen::typed_n(code, gen::share_name()), any::<u16>(), gen::share_name()))
+        .boxed()
+}
+
+fn check_twin(input: &TwinIn, case: &mut Case) -> Result<(), Fail> {
+    let (x, y, mask, owner) = input;
+    let mut twin = x.clone();
+    let mut changed = 0;
+    if let (ARData::Typed { fields: tf, .. }, ARData::Typed { fields: yf, .. }) = (&mut twin, y) {
+        // a sparse mask: mostly one field differs
+        let m = if mask & 0xf000 == 0 { *mask } else { 1u16 << (mask % tf.len().max(1) as u16) };
+        for (i, f) in tf.iter_mut().enumerate() {
+            if m & (1 << i) != 0 && *f != yf[i] {
+                *f = yf[i].clone();
+                changed += 1;
+            }
+        }
+    }
+    case.nontrivial = changed >= 1;
+    case.class(format!("fields-changed-{}", changed.min(3)));
+    let ra = ARecord { name: owner.clone(), class: 1, cache_flush: false, ttl: 7, rdata: x.clone() };
+    let rb = ARecord { rdata: twin.clone(), ..ra.clone() };
+    let a = lib("build_record", || build_record(&ra))?.map_err(|e| Fail::new("harness:build", e))?;
+    let b = lib("build_record", || build_record(&rb))?.map_err(|e| Fail::new("harness:build", e))?;
+    ensure!(lib("RData::eq", || a.rdata == a.rdata.clone())?, "c16:not-reflexive", "an RDATA value differs from its clone: {:?}", x);
+    if lib("RData::eq", || a.rdata == b.rdata)? {
+        case.class(if changed == 0 { "identical" } else { "equal-though-fields-differ" });
+        ensure!(h(&a.rdata) == h(&b.rdata), "c16:hash-rdata", "rdata values {:?} and {:?} are == but hash differently", x, twin);
+    }
+    if lib("ResourceRecord::eq", || a == b)? {
+        ensure!(h(&a) == h(&b), "c16:hash-record", "records with rdata {:?} and {:?} are == but hash differently", x, twin);
+        let set: std::collections::HashSet<ResourceRecord> = [a.clone(), b.clone()].into_iter().collect();
+        ensure!(set.len() == 1, "c16:set", "two equal records occupy {} slots of a HashSet", set.len());
+    }
+    Ok(())
+}
+
 /// values at the edges of the constructors: empty TXT, empty NULL, no params / windows / options, root names
 fn enum_special(_t: Tier, shard: usize, n: usize, f: &mut dyn FnMut(u8) -> bool) {
     for k in 0..15u8 {
@@ -351,11 +394,12 @@ fn check_inst(i: &Inst, case: &mut Case) -> Result<(), Fail> {
 pub fn def() -> CheckDef {
     CheckDef {
         id: "C16",
-        rule: "proptest: (1) suffix-sharing packets (as C03) built through the public API, serialised plain and compressed and parsed back, giving three versions of every value (built from parts, borrowed from the plain buffer, borrowed from the compressed buffer); each packet/question/record/name/label/RDATA is cloned and converted with into_owned (packets: rebuilt from owned parts) and must be ==, observe equally, hash equally and serialise to identical bytes plain and compressed; the three versions of each record must be pairwise ==, hash-equal and byte-equal. (2) pairs of records differing only in TTL / cache-flush, in the letter case of one owner or RDATA-name label, or in class: whenever == holds (for the record, its name, its labels, its rdata) the hashes must agree and a HashSet must hold one entry. (2b) fifteen edge values (incl. an NSEC whose windows are held out of order, SVCB with keys 0 and 65535, OPT records differing only in their class member) (empty TXT built five ways, empty NULL, SVCB without params, NSEC without windows, OPT without options, Empty, root names): clone and owned copy equal, hash-equal, byte-equal, also after a further string is added. (3) InstanceInformation built 32 times from the same addresses/ports/attributes in rotated and reversed insertion orders (fresh HashSet seeds each time): equal, equal hashes, one HashSet slot. Non-trivial = a name with >= 2 labels or a variable-length field (instances: >= 2 distinct addresses or ports)",
+        rule: "proptest: (1) suffix-sharing packets (as C03) built through the public API, serialised plain and compressed and parsed back, giving three versions of every value (built from parts, borrowed from the plain buffer, borrowed from the compressed buffer); each packet/question/record/name/label/RDATA is cloned and converted with into_owned (packets: rebuilt from owned parts) and must be ==, observe equally, hash equally and serialise to identical bytes plain and compressed; the three versions of each record must be pairwise ==, hash-equal and byte-equal. (2) pairs of records differing only in TTL / cache-flush, in the letter case of one owner or RDATA-name label, or in class: whenever == holds (for the record, its name, its labels, its rdata) the hashes must agree and a HashSet must hold one entry; likewise for pairs of records of one type whose RDATA differs in one or a few fields taken from a second value. (2b) fifteen edge values (incl. an NSEC whose windows are held out of order, SVCB with keys 0 and 65535, OPT records differing only in their class member) (empty TXT built five ways, empty NULL, SVCB without params, NSEC without windows, OPT without options, Empty, root names): clone and owned copy equal, hash-equal, byte-equal, also after a further string is added. (3) InstanceInformation built 32 times from the same addresses/ports/attributes in rotated and reversed insertion orders (fresh HashSet seeds each time): equal, equal hashes, one HashSet slot. Non-trivial = a name with >= 2 labels or a variable-length field (instances: >= 2 distinct addresses or ports)",
         assumptions: vec!["DefaultHasher::new() (fixed keys) for hash comparisons; std's per-HashSet RandomState only influences how quickly an order-dependent Hash is caught, never the verdict on a correct one"],
         sections: vec![
             Box::new(PropSection { name: "copies", rule: "clone / owned / built-vs-parsed", strategy: copies_strategy, cases: (60_000, 600_000), check: check_copies }),
             Box::new(PropSection { name: "ttl-flush", rule: "records equal up to ttl/flush", strategy: pair_strategy, cases: (200_000, 2_000_000), check: check_pair }),
+            Box::new(PropSection { name: "field-twins", rule: "records of one type differing in few RDATA fields", strategy: twin_strategy, cases: (150_000, 1_500_000), check: check_twin }),
             Box::new(EnumSection { name: "special-values", rule: "edge values of the constructors", enumerate: enum_special, check: check_special, exhaustive: true }),
             Box::new(PropSection { name: "instance-info", rule: "set-valued instance information", strategy: inst_strategy, cases: (20_000, 200_000), check: check_inst }),
         ],
